@@ -81,6 +81,21 @@ SetFeesEv(ev, t) ==
   ELSE Unchanged(ev, t, "C18")
        \o << <<"C18.setfees.valid-by-owner-rejected", ~(ev.actor = "owner" /\ VaultFeesValid(f))>> >>
 
+\* the three pause switches (C17): an update names each switch or leaves it alone
+SetTogEv(ev, t) ==
+  LET pick(x, cur) == IF x = "none" THEN cur ELSE x = "on"
+      g == [d |-> pick(ev.args.d, st.tog.d), w |-> pick(ev.args.w, st.tog.w), l |-> pick(ev.args.l, st.tog.l)] IN
+  IF ev.res = "ok"
+  THEN << <<"C16.settog.owner-only", ev.actor = "owner">> >> \o ObsChecks([st EXCEPT !.tog = g], ev.obs)
+  ELSE Unchanged(ev, t, "C17") \o << <<"C17.settog.by-owner-rejected", ev.actor # "owner">> >>
+\* a paused operation is refused whatever the vault's asset, and only its own switch pauses it
+TogChecks(ev) ==
+  LET mine == CASE ev.ev = "deposit" -> st.tog.d [] ev.ev \in {"withdraw", "wdirect"} -> st.tog.w
+                [] ev.ev \in {"loan", "rloan"} -> st.tog.l [] OTHER -> TRUE IN
+  << <<"C17.accepted-only-while-its-switch-is-on", ev.res = "ok" => mine>>,
+     <<"C17.refused-as-disabled-only-by-its-own-switch",
+        (ev.ev \in {"deposit", "withdraw"} /\ ev.res # "ok" /\ ev.disabled) => ~mine>> >>
+
 DonateEv(ev, t) ==
   IF ev.res = "ok" THEN ObsChecks(DonateNext(st, ev.actor, ev.args.x), ev.obs) ELSE Unchanged(ev, t, "C05")
 
@@ -140,11 +155,12 @@ EvChecks(ev, t) ==
      [] ev.ev = "wdirect" -> WithdrawEv(ev, t) \o << <<"C05.withdraw.only-against-shares", ev.res # "ok">> >>
      [] ev.ev = "collect" -> CollectEv(ev, t)
      [] ev.ev = "setfees" -> SetFeesEv(ev, t)
+     [] ev.ev = "settog" -> SetTogEv(ev, t)
      [] ev.ev = "donate" -> DonateEv(ev, t)
      [] ev.ev = "loan" -> LoanEv(ev, t)
      [] ev.ev = "rloan" -> RouterLoanEv(ev, t)
      [] OTHER -> << <<"TRACE.unknown-event", FALSE>> >>)
-  \o Globals(st, t)
+  \o Globals(st, t) \o TogChecks(ev)
 
 ResetChecks(t) ==
   << <<"C17.fresh.all-enabled", t.tog.d /\ t.tog.w /\ t.tog.l>>,
